@@ -9,23 +9,18 @@ Model: `NoKVModel/Raftwal/Segments.lean`.  The three removers share two decision
 `raftAllows` (= `lsm/levels.go:canRemoveWalSegment`, used after a flush and by recovery) and
 `watchdogRemoves` (= `metrics/wal.go:AnalyzeWALBacklog` + the watchdog's batch).
 
-Full statement aimed at (NOT proved here, see `C36_removers_safe_partial`):
-  theorem C36_needed_kept (c : SCfg) (hc : c.Good) (ops : List Op) : neededKept (run c ops) = true
-The missing part is the inductive invariant of the step system that ties the manifest pointers
-to the records (every entry above a group's truncation point lies in a segment ≥ its
-`segIndex`; a group without `segIndex` has truncated nothing; flushes happen in segment
-order); the correspondence run checks `neededKept`'s consequences (reads and raft state after a
-crash image) on the real DB instead.
+Headline `C36_needed_kept`: for the configuration in which all four decision predicates are the
+repaired ones, every reachable state keeps every needed segment — by the inductive invariant
+`Seg.Inv` of `Raftwal/SegmentsLemmas.lean` (one preservation lemma per operation).
 -/
-import NoKVModel.Raftwal.Segments
+import NoKVModel.Raftwal.SegmentsLemmas
 
 namespace NoKV.Props.C36
 open NoKV NoKV.Raftwal.Seg
 
 /-- **Decision predicates, all states (partial).**  With the repaired predicates, in *every*
 state `s` (no reachability assumption, no bound):
-* whatever the watchdog picks is a present segment whose memtable is flushed (at or below the
-  manifest log pointer), and for every raft group that has a pointer a truncation segment is
+* whatever the watchdog picks is a present segment at or below the manifest log pointer, and for every raft group that has a pointer a truncation segment is
   recorded and the picked segment lies strictly below it and below the group's newest segment;
 * whatever `canRemoveWalSegment` lets the flush / recovery remover delete lies strictly below
   every group's newest segment and truncation segment, and if some group has not recorded a
@@ -70,6 +65,38 @@ theorem C36_removers_safe_partial (c : SCfg) (hc : c.RemoversGood) (s : S) :
         · exact absurd hs h5
         · exact h5
 
+/-- **Headline.**  Configuration: all four repairs in place (`canRemoveWalSegment` and the watchdog
+keep every raft-bearing segment while some group has recorded no truncation segment; the watchdog
+only removes segments at or below the manifest log pointer; a failed memtable flush is retried in
+place so that the log pointer never passes an unflushed memtable; `OpenWALStorage` seeds the
+truncation point).  For *every* operation list — puts, raft
+appends / hard states / truncations of either group, memtable rotations with the flush stalled
+or not, failed flushes, gate changes, watchdog passes, crashes + reopen, in any order and
+number — in the state reached, every WAL segment that holds a put contained in no installed
+table, or a raft entry above its group's truncation point, still exists. -/
+theorem C36_needed_kept (c : SCfg) (hc : c.Good) (ops : List Op) : neededKept (run c ops) = true :=
+  inv_neededKept (inv_run c hc ops)
+
+/-- non-vacuity: all three removers fire — the post-flush remover deletes segment 1 (op 7: its
+flush was stalled until group 1 had truncated past it), the watchdog deletes segment 2 (op 12),
+the recovery cleanup deletes segment 3 (op 20: installed, kept for raft at flush time, released by
+the later truncations of both groups) — a flush then fails and is retried (put 4), a further
+flush and crash follow; nothing needed is lost -/
+def exampleOps : List Op :=
+  [.rapp 1 2, .put 1, .gate true, .rotate, .rapp 1 3, .rtrunc 1 4, .gate false,
+   .put 2, .rotate, .rapp 1 2, .rtrunc 1 6, .watchdog,
+   .put 3, .rapp 2 2, .rotate, .rapp 1 1, .rapp 2 1, .rtrunc 1 8, .rtrunc 2 3, .crash,
+   .put 4, .flushFail, .put 5, .rotate, .crash]
+
+example : neededKept (run SCfg.good exampleOps) = true ∧
+    segIds (run SCfg.good (exampleOps.take 6)) = [1, 2] ∧ segIds (run SCfg.good (exampleOps.take 7)) = [2] ∧
+    segIds (run SCfg.good (exampleOps.take 11)) = [2, 3] ∧ segIds (run SCfg.good (exampleOps.take 12)) = [3] ∧
+    segIds (run SCfg.good (exampleOps.take 19)) = [3, 4] ∧ segIds (run SCfg.good (exampleOps.take 20)) = [4] ∧
+    ((run SCfg.good exampleOps).segs.filter (fun sg => !sg.present)).map (·.id) = [1, 2, 3] ∧
+    get (run SCfg.good exampleOps) 4 = some 11 ∧
+    (run SCfg.good exampleOps).grps.map (fun g => (g.openOK, g.last, g.trunc)) = [(true, 8, 8), (true, 3, 3)] := by
+  decide
+
 /-- corpus/C36/finding-untruncated-raft-removed.ops -/
 def witnessGuard : List Op := [.rapp 1 3, .put 1, .gate true, .rotate, .rhs 1, .gate false, .crash]
 
@@ -81,10 +108,10 @@ theorem C36_fails_asis_guard (c : SCfg) (hc : c.AsIsGuard) :
     neededKept (run c (witnessGuard.take 6)) = false ∧
     ((run c witnessGuard).grps.map (fun g => (g.id, g.openOK, g.last))).head? = some (1, true, 0) := by
   cases c with
-  | mk a b d =>
+  | mk a b d e =>
     simp only [SCfg.AsIsGuard] at hc
     subst hc
-    cases b <;> cases d <;> decide
+    cases b <;> cases d <;> cases e <;> decide
 
 /-- corpus/C36/finding-watchdog-unflushed-memtable.ops -/
 def witnessWatchdog : List Op :=
@@ -96,10 +123,25 @@ after a crash the acknowledged put is unreadable. -/
 theorem C36_fails_asis_watchdog (c : SCfg) (hc : c.AsIsWatchdog) :
     neededKept (run c (witnessWatchdog.take 7)) = false ∧ get (run c witnessWatchdog) 1 = none := by
   cases c with
-  | mk a b d =>
+  | mk a b d e =>
     simp only [SCfg.AsIsWatchdog] at hc
     subst hc
-    cases a <;> cases d <;> decide
+    cases a <;> cases d <;> cases e <;> decide
+
+/-- corpus/C36/finding-recovery-removes-stuck-memtable.ops -/
+def witnessRecovery : List Op := [.put 1, .flushFail, .put 2, .rotate, .crash]
+
+/-- **As-is (a failed flush is dropped from the queue, not retried).**  The flush of memtable 1 fails
+at the manifest write (put 1 stays only in segment 1); the next memtable flushes fine and moves
+the log pointer past segment 1; on reopen the recovery cleanup — everything at or below the
+pointer — deletes segment 1: the acknowledged put is unreadable. -/
+theorem C36_fails_asis_recovery (c : SCfg) (hc : c.AsIsRecovery) :
+    neededKept (run c witnessRecovery) = false ∧ get (run c witnessRecovery) 1 = none := by
+  cases c with
+  | mk a b d e =>
+    simp only [SCfg.AsIsRecovery] at hc
+    subst hc
+    cases a <;> cases b <;> cases e <;> decide
 
 /-- corpus/C36/finding-replay-gap-after-gc.ops -/
 def witnessReplay : List Op :=
@@ -111,10 +153,10 @@ starts at index 4: replay hits `missing log entry` and the raft storage does not
 theorem C36_fails_asis_replay (c : SCfg) (hc : c.AsIsReplay) :
     ((run c witnessReplay).grps.map (fun g => (g.id, g.openOK))).head? = some (1, false) := by
   cases c with
-  | mk a b d =>
+  | mk a b d e =>
     simp only [SCfg.AsIsReplay] at hc
     subst hc
-    cases a <;> cases b <;> decide
+    cases a <;> cases b <;> cases d <;> decide
 
 /-- the repaired configuration on the same three histories: everything needed is kept, the put
 is readable, the group opens with its full log -/
